@@ -161,14 +161,16 @@ func TestCheck(t *testing.T) {
 		sizeLimits(r)
 		sizeLimitsAcrossReload(r)
 		publishAdmission(r)
+		returnedAdmission(r)
 	}
 	concurrentAdmission(r, t)
 	concurrentLimiter(r, t)
 	r.Assume("store level: histories in which operator requeue lifted the active count above max_depth are not extended (property quantifier)")
 	r.Assume("memory-pressure refusals need > 1000 retained items and are outside the small scope; the refusal path shares the tentative-eviction rollback that the duplicate-id refusals exercise")
 	r.Assume("rate limiter: arrival gaps are multiples of 1/4 s and rates are powers of two, so the float arithmetic of the bound is exact; windows that span a reload are excluded (property quantifier)")
+	r.Assume("admission after an operator return (F): only histories in which requeue/resume brings the active count to at most max_depth (property quantifier); messages returned from `delivered` are not covered")
 	r.Assume("publish: one request at a time on a queue holding 2-3 older messages; items are minimal (id, route/target or endpoint scope, 1-byte payload); concurrent publishes are represented by the store-level schedules (D)")
-	r.Set("rule", "(A) every store operation sequence up to the depth for max_depth x policy x backend with the admission monitor on every enqueue; (B) every arrival sequence up to the length over the gap alphabet for every limiter config through the real ingress handler, every window checked; (C) every body/header size around the limits and every fan-out refusal position; (D) every interleaving (memory: all; SQLite: within the preemption bound) of two producers (single and batch enqueue) and a worker that acks and re-enqueues on a queue with max_depth 2 under reject and drop_oldest, linearizability against qmodel; (E) one Admin publish request (global and endpoint-scoped endpoint of the booted application) of every size from 1 item to one above the cap of the items array (quick: sizes up to 40, powers of two and the cap with their neighbours) for backend x policy x five placements around max_depth relative to the size (fits, one too many, one too many with only leased messages, larger than max_depth, duplicate id), judged on snapshots before/after: refused = unchanged, accepted = every item stored, active <= max_depth, only the oldest queued evicted, one per message beyond the capacity; non-trivial = distinct (operation, outcome) pairs, distinct (config, admitted pattern) classes and distinct size-limit verdict classes")
+	r.Set("rule", "(A) every store operation sequence up to the depth for max_depth x policy x backend with the admission monitor on every enqueue; (B) every arrival sequence up to the length over the gap alphabet for every limiter config through the real ingress handler, every window checked; (C) every body/header size around the limits and every fan-out refusal position; (D) every interleaving (memory: all; SQLite: within the preemption bound) of two producers (single and batch enqueue) and a worker that acks and re-enqueues on a queue with max_depth 2 under reject and drop_oldest, linearizability against qmodel; (E) one Admin publish request (global and endpoint-scoped endpoint of the booted application) of every size from 1 item to one above the cap of the items array (quick: sizes up to 40, powers of two and the cap with their neighbours) for backend x policy x five placements around max_depth relative to the size (fits, one too many, one too many with only leased messages, larger than max_depth, duplicate id), judged on snapshots before/after: refused = unchanged, accepted = every item stored, active <= max_depth, only the oldest queued evicted, one per message beyond the capacity; (F) enqueues (single, batch of 1 and 2, two in a row) on a queue whose active messages left the active set (dead, canceled while queued or leased) and were brought back by an operator (requeue/resume by ids or by filter, DLQ requeue), 1..max_depth of them plus 0..max_depth-k enqueued ones, active never above max_depth, backend x policy x max_depth 1-2, every step against qmodel and the admission monitor; non-trivial = distinct (operation, outcome) pairs, distinct (config, admitted pattern) classes and distinct size-limit verdict classes")
 	r.Finish()
 }
 
